@@ -200,9 +200,17 @@ fn aggregate_level(v: &V, bits: usize, ctx: &[u8], key: &[u8; 32], reports: &[Re
         }
         n += 1;
     }
-    let a0 = v.aggregate(ap, per_agg[0].clone()).ok()?;
-    let a1 = v.aggregate(ap, per_agg[1].clone()).ok()?;
-    let counts = v.unshard(ap, [a0, a1], n).ok()?;
+    // honest output shares: aggregation and unsharding must succeed (a refusal or panic is an event the trace spec rejects)
+    let r = guarded(|| -> Result<Vec<u64>, String> {
+        let a0 = v.aggregate(ap, per_agg[0].clone()).map_err(|e| format!("aggregate: {e}"))?;
+        let a1 = v.aggregate(ap, per_agg[1].clone()).map_err(|e| format!("aggregate: {e}"))?;
+        v.unshard(ap, [a0, a1], n).map_err(|e| format!("unshard: {e}"))
+    });
+    let counts = match r {
+        Ok(Ok(c)) => c,
+        Ok(Err(e)) => { out.push(json!({"ev":"aggregate_refused","level":ap.level(),"err":e})); return None; }
+        Err(p) => { out.push(json!({"ev":"panic","where":"aggregate/unshard","msg":p,"level":ap.level()})); return None; }
+    };
     out.push(json!({"ev":"result","level":ap.level(),"prefixes":ap.prefixes().iter().map(bits_json).collect::<Vec<_>>(),
                     "inputs":reports.iter().map(|r| bits_json(&r.input)).collect::<Vec<_>>(),"counts":counts}));
     Some(counts)
